@@ -5,7 +5,8 @@ import os
 
 import vlib
 from vlib import gZ, gQ, gbool, glist
-from props.c17_gen import pregen  # noqa: F401  (translator tie of DepState.required_increment_from, see c17_gen.py)
+from props.c17_gen import pregen  # noqa: F401  (translator ties to linspace.py, see c17_gen.py)
+from props.c17_fam import H, IT, REP, SEQ, fs, families
 
 F = fractions.Fraction
 PID = 'C17'
@@ -52,10 +53,6 @@ ERRMAP = {'AttributeError': 'EAttr', 'AssertionError': 'EAssert', 'KeyError': 'E
 # ---------------------------------------------------------------------------------------------------------------------
 # source trees (JSON) and their two readings: a qupulse template and a Gallina `src` term
 
-def fs(x):
-    return str(F(x))
-
-
 def _num_repr(x, as_int):
     x = F(x)
     if as_int and x.denominator == 1:
@@ -100,6 +97,25 @@ def volt_expr(v, remap):
         terms.append((c, var))
     # rendering style: exercises SimpleExpression.__mul__/__rmul__/__truediv__/__add__/__radd__/__sub__/__rsub__/__neg__
     style = v.get('style', 0)
+    if style == 5:
+        # bare style: a coefficient of exactly 1 / -1 is written as the bare variable (the scope object itself becomes an
+        # operand of SimpleExpression.__add__/__sub__); the base comes last
+        out = ''
+        for t in terms:
+            if isinstance(t, str):
+                out += ' + ' + t
+                continue
+            c, var = t
+            if c == 1:
+                out += ' + ' + var
+            elif c == -1:
+                out += ' - ' + var
+            else:
+                out += ' + (%s)*%s' % (_num_repr(c, v.get('ints')), var)
+        if base != 0 or not out:
+            out += ' + (%s)' % _num_repr(base, v.get('ints'))
+        out = out.strip()
+        return out[2:] if out.startswith('+ ') else out
     out = '(%s)' % _num_repr(base, v.get('ints'))
     for k, t in enumerate(terms):
         if isinstance(t, str):
@@ -128,7 +144,8 @@ def build_template(t):
                  for name, m in t.get('via_map', {}).items()}
         dur = F(t['dur'])
         dur = int(dur) if dur.denominator == 1 else float(dur)
-        pt = ConstantPT(dur, {ch: volt_expr(v, remap) for ch, v in t['v'].items()})
+        # 'vorder': the order of the template's amplitude dict = the order in which the channel expressions are evaluated
+        pt = ConstantPT(dur, {ch: volt_expr(t['v'][ch], remap) for ch in t.get('vorder', t['v'])})
         if remap:
             pm = {}
             for name, r in remap.items():
@@ -372,31 +389,6 @@ def mk_run(rng, tree, chans, exact=True):
     return {'kind': 'run', 'channels': order, 'tree': tree, 'exact': exact}
 
 
-def H(dur, **v):
-    """hand-written hold: H(1, a='1.5') plain, a=('0', {'i': '1/2'}) affine, a=2 int"""
-    d = {}
-    for ch, x in v.items():
-        if isinstance(x, tuple):
-            d[ch] = {'k': 'aff', 'base': fs(x[0]), 'coefs': {n: fs(c) for n, c in x[1].items()}}
-        elif isinstance(x, int):
-            d[ch] = {'k': 'int', 'v': x}
-        else:
-            d[ch] = {'k': 'plain', 'v': fs(x)}
-    return {'t': 'hold', 'dur': fs(dur), 'v': d}
-
-
-def IT(idx, rng_, body):
-    return {'t': 'iter', 'idx': idx, 'start': rng_[0], 'stop': rng_[1], 'step': rng_[2], 'body': body}
-
-
-def REP(n, body):
-    return {'t': 'rep', 'n': n, 'body': body}
-
-
-def SEQ(*l):
-    return {'t': 'seq', 'l': list(l)}
-
-
 def boundary_cases():
     """the shapes named in DESIGN §5 C17 / Appendix A and in the tests of the pinned suite (scaled down)"""
     out = []
@@ -508,6 +500,7 @@ def enum_small(tier):
 
 def gen_cases(rng, tier, ctx):
     cases = boundary_cases()
+    cases.extend(families(rng, tier))
     small = enum_small(tier)
     if tier == 'quick':
         # all one-channel nests of depth <= 2 plus a sample of the thorough tier's multi-channel / depth-3 enumeration
@@ -727,6 +720,8 @@ def nontrivial(case, obs):
 
 def histogram_keys(case, obs):
     keys = [case['kind'], 'channels:%d' % len(case['channels'])]
+    if case.get('fam'):
+        keys.append('fam:' + case['fam'])
     kinds = {x['t'] for x in walk(case['tree'])}
     keys.extend('has:' + k for k in sorted(kinds))
     depth = 0
@@ -792,17 +787,25 @@ def classify(case, obs):
 
 
 def _py_spec_ok(case, obs):
+    """python reading of check_spec (used by search_failing / shrink): the implementation's history is the staircase of
+    the default program; scale cases: with channel k replaced by (v - offset_k) / amplitude_k"""
     if 'hist' not in obs:
         return False
-    if case['kind'] != 'run':
-        return True
     if len(obs['hist']) != len(obs['dflt']) or F(obs['total']) != F(obs['dflt_total']):
         return False
     tol = 0 if case.get('exact', True) else F(1, 10 ** 9) * (len(obs['hist']) + 1)
+    by = {}
+    if case['kind'] == 'scale':
+        for h in case['hw']:
+            if h[0] is not None and h[0] not in by:
+                by[h[0]] = (F(h[1]), F(h[2]))
     for (t1, v1), (t2, v2) in zip(obs['hist'], obs['dflt']):
         if F(t1) != F(t2) or len(v1) != len(v2):
             return False
-        for a, b in zip(v1, v2):
+        for ch, a, b in zip(case['channels'], v1, v2):
+            if case['kind'] == 'scale':
+                amp, off = by[ch]
+                b = (F(b) - off) / amp
             if a is None or abs(F(a) - F(b)) > tol:
                 return False
     return True
@@ -815,8 +818,6 @@ def search_failing(ctx, broken):
     known, _ = vlib.load_known_findings()
     known = known.get(PID, {})
     for case in gen_cases(rng, 'quick', ctx):
-        if case['kind'] != 'run':
-            continue
         obs = run_impl(case)
         if 'crash' in obs or 'hang' in obs:
             return case, obs, 'implementation crashed or hung'
@@ -848,7 +849,7 @@ def shrink(case, obs, ctx):
         except Exception:
             return None
         return o
-    if case['kind'] != 'run' or bad(case) is None:
+    if bad(case) is None:
         return case, obs
     import copy
     cur, cur_obs = case, obs
